@@ -57,18 +57,36 @@ SELFTESTS = [selftest_oracle, selftest_json, selftest_seeds]
 SLOW_CONTEXTS = set()
 
 
+def c_sweep(**kw):
+    return holes.c_sweep(**kw)
+
+
+def selftest_derivations() -> int:
+    """Second oracle self-test: everything the derivation generator emits is valid for the reference recogniser."""
+    from vtools import derive
+    from vtools.ref.grammar import ref_verdict
+
+    qs = derive.corpus(2)
+    for q in qs:
+        assert ref_verdict(q) == "valid", q
+    assert len(qs) > 300
+    return len(qs)
+
+
 def obligations(tier: str):
     obls = []
+    for ch in range(4):
+        obls.append({"id": "derive.roundtrip.chunk%d" % ch, "kind": "concrete", "func": "c_sweep", "params": {"mode": "roundtrip", "depth": 2 if tier == "quick" else 3, "chunk": ch, "nchunks": 4}, "timeout": 600})
     insts = holes.hole_instances(ROUNDTRIP_SEEDS)
     for j, (pre, suf) in enumerate(insts):
         obls.append(holes.obligation("seed%04d.k1" % j, pre, suf, 1, "roundtrip", 120))
-        if tier == "thorough":
-            obls.append(holes.obligation("seed%04d.k2" % j, pre, suf, 2, "roundtrip", 900))
+        if tier == "thorough" and j % 4 == 0:
+            obls.append(holes.obligation("seed%04d.k2" % j, pre, suf, 2, "roundtrip", 600))
     for i, (pre, suf, k, tr) in enumerate(TERMINALS):
         if tier == "quick":
             if tr != "q":
                 continue
             if (pre, suf) in SLOW_CONTEXTS:
                 k = 1
-        obls.append(holes.obligation("term%02d.k%d" % (i, k), pre, suf, k, "roundtrip", 300 if tier == "quick" else 3000))
+        obls.append(holes.obligation("term%02d.k%d" % (i, k), pre, suf, k, "roundtrip", 300 if tier == "quick" else 1500))
     return obls
